@@ -22,6 +22,7 @@ import LbzVerif.Lemmas.SchedD.Leak
 import LbzVerif.Lemmas.SchedD.Cons
 import LbzVerif.Lemmas.SchedD.InSlots
 import LbzVerif.Lemmas.SchedD.Progress
+import LbzVerif.Lemmas.SchedD.Holder2
 import LbzVerif.Lemmas.SchedD.Witness
 
 namespace LbzVerif.Props.C11.Expand
@@ -102,14 +103,24 @@ theorem in_slots_conservation {c : Cfg} (hW : 0 < c.W) {s : State} (h : Reach c 
     s.inSlots + inputAlive s = c.totalIn :=
   in_slots_conserved hW h
 
+/-- **no lost block** (full strength): every entry `(b,i)` of `order_q` keeps a
+    producer — a master-capable retrieve job of block `b`, an emit job of block
+    `b` that will still produce buffer `i`, or a buffer of block `b` with index
+    `≥ i` in `reord_q` — so a parsed block can never be forgotten, and `order_q`
+    is empty when the run terminates. -/
+theorem no_lost_block {c : Cfg} {s : State} (h : Reach c s) :
+    (s.failed = false → HI c s) ∧ (terminated c s = true → s.orderQ = []) :=
+  ⟨fun hf => hi_reach h hf, fun ht => terminated_order_empty h ht⟩
+
 /-- **everything is given back** (full strength): when all workers have left
     the loop, no job, buffer or busy worker is left, no `unord_blk` is live. -/
 theorem quiescent_at_termination {c : Cfg} {s : State} (h : Reach c s)
     (ht : terminated c s = true) :
     s.retrQ = [] ∧ s.emitQ = [] ∧ s.busy = [] ∧ s.pphase = none ∧ s.reordQ = [] ∧ s.outq = 0
-    ∧ s.orphans = [] :=
+    ∧ s.orphans = [] ∧ s.orderQ = [] :=
   let q := terminated_quiescent h ht
-  ⟨q.1, q.2.1, q.2.2.1, q.2.2.2.1, q.2.2.2.2.1, q.2.2.2.2.2, (no_unord_leak_terminated h ht).1⟩
+  ⟨q.1, q.2.1, q.2.2.1, q.2.2.2.1, q.2.2.2.2.1, q.2.2.2.2.2, (no_unord_leak_terminated h ht).1,
+    terminated_order_empty h ht⟩
 
 example : ∃ s, Reach cfgF4 s ∧ terminated cfgF4 s = true :=
   let ⟨s, hr, hp⟩ := reach_of_run f2_repaired
